@@ -28,6 +28,23 @@ type EngSpec struct {
 	FailAt     int               `json:"fail_at,omitempty"`        // spy invocation that fails
 	Sandbox    bool              `json:"sandbox,omitempty"`        // EnableSandbox(allowAll)
 	DefaultPol bool              `json:"default_policy,omitempty"` // EnableSandbox(NewDefaultSecurityPolicy())
+	// Config: additions made through AddGlobal / AddFunction / AddFilter, "g:name", "f:name", "|name"
+	// (a global holds "G<name>", a function returns "F<name>", a filter appends "|<name>")
+	Config []string `json:"config,omitempty"`
+}
+
+// applyConfig performs one configuration call described as in EngSpec.Config.
+func applyConfig(e *twig.Engine, c string) {
+	name := c[2:]
+	switch c[:2] {
+	case "g:":
+		e.AddGlobal(name, "G"+name)
+	case "f:":
+		e.AddFunction(name, func(args ...interface{}) (interface{}, error) { return "F" + name, nil })
+	default:
+		name = c[1:]
+		e.AddFilter(name, func(v interface{}, args ...interface{}) (interface{}, error) { return fmt.Sprint(v) + "|" + name, nil })
+	}
 }
 
 type OneShot struct {
@@ -76,6 +93,9 @@ func buildEngine(s EngSpec) (*twig.Engine, *Spies) {
 	}
 	if s.DefaultPol {
 		e.EnableSandbox(twig.NewDefaultSecurityPolicy())
+	}
+	for _, c := range s.Config {
+		applyConfig(e, c)
 	}
 	for _, r := range s.Registered {
 		e.RegisterString(r[0], r[1])
